@@ -48,13 +48,35 @@ def _in_baize(tb_exc):
     return hit
 
 
+class ShardTimeout(BaseException):
+    pass
+
+
+def _alarm(signum, frame):
+    raise ShardTimeout()
+
+
 def _run_shard(args):
     modname, desc, tier = args
     from .result import R
+    import signal
 
     mod = importlib.import_module(modname)
+    # Watchdog: on the unchanged tree the longest quick shard takes about a minute of CPU; a shard that is still running
+    # after ten times that has met code under test that loops without ever yielding (or a schedule space that exploded).
+    limit = int(os.environ.get("VERIF_SHARD_TIMEOUT", "900" if tier == "quick" else "14400"))
+    try:
+        signal.signal(signal.SIGALRM, _alarm)
+        signal.alarm(limit)
+    except (ValueError, OSError):
+        pass
     try:
         return mod.run_shard(desc, tier)
+    except ShardTimeout:
+        r = R()
+        r.violation(f"hang:{desc[0] if isinstance(desc, (tuple, list)) and desc else 'shard'}", {"shard": repr(desc)[:500], "limit_s": limit, "where": traceback.format_exc()[-1500:]},
+                    f"shard {desc!r:.200} did not finish within {limit} s (unchanged tree: about a minute at most): the code under test loops without yielding or never terminates")
+        return r
     except BaseException as exc:  # noqa: an escape from the code under test is a finding, from the harness an error
         where = _in_baize(exc)
         r = R()
@@ -67,6 +89,11 @@ def _run_shard(args):
             return r
         r.notes.append("MACHINERY-ERROR " + traceback.format_exc())
         return r
+    finally:
+        try:
+            signal.alarm(0)
+        except (ValueError, OSError):
+            pass
 
 
 def safe_name(sig):
